@@ -153,6 +153,7 @@ func (s *Scanner) scanString() string {
 	// '"' opening already consumed
 	offs := s.offset - 1
 
+	terminated := false
 	for {
 		ch := s.ch
 		if ch == '\n' || ch < 0 {
@@ -161,11 +162,17 @@ func (s *Scanner) scanString() string {
 		}
 		s.next()
 		if ch == '"' {
+			terminated = true
 			break
 		}
 		if ch == '\\' {
 			s.scanEscape('"')
 		}
+	}
+
+	if !terminated {
+		// no closing quote to strip (the error is already recorded)
+		return string(s.src[offs+1 : s.offset])
 	}
 
 	return string(s.src[offs+1 : s.offset-1])
@@ -245,6 +252,7 @@ func (s *Scanner) scanRawString() string {
 	offs := s.offset - 1
 
 	hasCR := false
+	terminated := false
 	for {
 		ch := s.ch
 		if ch < 0 {
@@ -253,6 +261,7 @@ func (s *Scanner) scanRawString() string {
 		}
 		s.next()
 		if ch == '`' {
+			terminated = true
 			break
 		}
 		if ch == '\r' {
@@ -260,7 +269,12 @@ func (s *Scanner) scanRawString() string {
 		}
 	}
 
-	lit := s.src[offs+1 : s.offset-1]
+	end := s.offset - 1
+	if !terminated {
+		// no closing quote to strip (the error is already recorded)
+		end = s.offset
+	}
+	lit := s.src[offs+1 : end]
 	if hasCR {
 		lit = stripCR(lit)
 	}
